@@ -226,6 +226,8 @@ pub enum Ev
     FlushEnd{ run: RunId },
     /// a named-fn system ran (it cannot know which registration it is; attributed by the preceding hook Start)
     AnonRun{ local_n: u32, readings: Readings },
+    /// change detection as seen by the run that just began: `ReactRes<RA>` / `ReactRes<RB>` `.is_changed()`
+    ChangeSample{ changed: [bool; 2], resample: bool },
     Probe{ readings: Readings, exclusive: bool },
     PayloadDrop(u32),
     CanaryDrop(SysUid),
